@@ -186,6 +186,15 @@ def worker(task):
                 res["parse_compared"] += 1
                 res["nontrivial"].add(common.h(d["name"], tid, b.hex()))
                 live = {x: outs[x][k] for x in names if outs[x][k][0] != "crash"}  # crashes: C01/C13/C14/C19
+                if live.get("java", ("", None))[0] == "rej" and A.children_of(m.file, tid):
+                    # Java has no parent object: bytes the others accept as the *parent* are an exception
+                    # there when a child's constraints match and its payload does not parse (see C19)
+                    try:
+                        e_ = rustwl.expectation(m, tid, b)
+                        if e_[0] == "ok" and ("err",) in m.specialize(tid, e_[1])[0]:
+                            live.pop("java")
+                    except Exception:
+                        pass
                 if len(live) < 2:
                     continue
                 acc = {x: o[0] for x, o in live.items()}
